@@ -48,6 +48,18 @@ pub struct FmtCase {
     /// between the formatter and the stream) instead of the `fmt::Write` sink
     #[serde(default)]
     pub io: Option<WriterPlan>,
+    /// further formatter flags (alignment, width, `#`, `0`), by preset index of
+    /// `fmtspecs::PRESET_NAMES`, and the width. C20 constrains plain / + / .p / +.p "however the
+    /// formatter was obtained"; what an implementation does with a width is its own business, so
+    /// the oracle accepts numerals rendered with or without these flags (see `check_content`).
+    #[serde(default)]
+    pub flags: Option<FlagSpec>,
+}
+
+#[derive(Clone, Copy, Debug, Serialize, Deserialize, PartialEq)]
+pub struct FlagSpec {
+    pub preset: usize,
+    pub width: usize,
 }
 
 /// The simulated sink: append-only byte store with a fault plan.
@@ -151,6 +163,41 @@ pub fn render_tf(w: &mut dyn Write, x: &TwoFloat, tr: Tr, plus: bool, prec: Opti
     spec_dispatch!(w, x, tr, plus, prec)
 }
 
+fn tr_index(tr: Tr) -> u8 {
+    match tr {
+        Tr::Display => 0,
+        Tr::LowerExp => 1,
+        Tr::UpperExp => 2,
+    }
+}
+
+/// Code under test, reached with the full flag set of the case.
+pub fn render_case(w: &mut dyn Write, x: &TwoFloat, c: &FmtCase) -> fmt::Result {
+    match c.flags {
+        Some(fl) => crate::fmtspecs::render_preset(w, x, fl.preset, tr_index(c.tr), fl.width, c.prec),
+        None => render_tf(w, x, c.tr, c.plus, c.prec),
+    }
+}
+
+/// A numeral without zero padding: optional sign, then the integer part stripped of leading zeros.
+fn strip_padding(t: &str) -> String {
+    let t = t.trim();
+    let (sign, rest) = match t.chars().next() {
+        Some(c @ ('+' | '-')) => (Some(c), &t[1..]),
+        _ => (None, t),
+    };
+    let rest = rest.trim_start_matches('0');
+    let mut out = String::new();
+    if let Some(c) = sign {
+        out.push(c);
+    }
+    if !rest.chars().next().map(|c| c.is_ascii_digit()).unwrap_or(false) {
+        out.push('0');
+    }
+    out.push_str(rest);
+    out
+}
+
 /// The same through `io::Write::write_fmt`.
 pub fn render_tf_io(w: &mut dyn std::io::Write, x: &TwoFloat, tr: Tr, plus: bool, prec: Option<usize>) -> std::io::Result<()> {
     spec_dispatch!(w, x, tr, plus, prec)
@@ -185,7 +232,7 @@ pub fn branch_probe(tr: Tr, plus: bool, prec: Option<usize>) -> &'static str {
 pub fn render_ideal(x: &TwoFloat, c: &FmtCase) -> (fmt::Result, String, usize) {
     let plan = SinkPlan::default();
     let mut sink = SimSink::new(&plan);
-    let r = render_tf(&mut sink, x, c.tr, c.plus, c.prec);
+    let r = render_case(&mut sink, x, c);
     (r, sink.data, sink.calls)
 }
 
@@ -194,7 +241,9 @@ pub fn check_content(c: &FmtCase, out: &str, v: &mut Vec<Violation>, probes: &mu
     let hi = f64::from_bits(c.hi);
     let lo_abs = f64::from_bits(c.lo & !SIGN);
     let want_sign = if c.lo & SIGN != 0 { "-" } else { "+" };
-    let toks: Vec<&str> = out.split(' ').collect();
+    // with a width the implementation may pad the whole text or each numeral (or ignore the
+    // width): tokens are then separated by runs of spaces
+    let toks: Vec<&str> = if c.flags.is_some() { out.split(' ').filter(|t| !t.is_empty()).collect() } else { out.split(' ').collect() };
     if toks.len() != 3 || toks.iter().any(|t| t.is_empty()) {
         v.push(viol("FMT_CONTENT", format!("not three space-separated tokens: {:?}", clip(out))));
         return;
@@ -239,6 +288,9 @@ pub fn check_content(c: &FmtCase, out: &str, v: &mut Vec<Violation>, probes: &mu
                 probes.hit("fmt_exponent_marker_missing_not_a_verdict");
             }
             // non-verdict statistic: byte equality with std's own rendering
+            if c.flags.is_some() {
+                probes.hit("fmt_with_width_or_alternate_flags");
+            }
             let std_exp = format!(
                 "{} {} {}",
                 render_f64(hi, c.tr, c.plus, None),
@@ -254,7 +306,13 @@ pub fn check_content(c: &FmtCase, out: &str, v: &mut Vec<Violation>, probes: &mu
         Some(p) => {
             let e0 = render_f64(hi, c.tr, c.plus, Some(p));
             let e2 = render_f64(lo_abs, c.tr, false, Some(p));
-            if toks[0] != e0 {
+            // under a width / zero-pad / alignment flag an implementation may apply the flag to the
+            // whole text, to each numeral, to the first only, or not at all: numerals are compared
+            // modulo padding (spaces are already gone; leading zeros of the integer part are
+            // stripped on both sides), the digits at the requested precision must match exactly
+            let padded = c.flags.is_some();
+            let same = |tok: &str, want: &str| if padded { strip_padding(tok) == strip_padding(want) } else { tok == want };
+            if !same(toks[0], &e0) {
                 v.push(viol(
                     "FMT_PREC",
                     format!("first numeral {:?} != f64 rendering {:?} at precision {}", clip(toks[0]), clip(&e0), p),
@@ -263,7 +321,7 @@ pub fn check_content(c: &FmtCase, out: &str, v: &mut Vec<Violation>, probes: &mu
             // the property wants |lo| rendered at precision p and says nothing about
             // whether the `+` flag reaches the second numeral: accept both spellings
             let e2_plus = format!("+{e2}");
-            if toks[2] != e2 && !(c.plus && toks[2] == e2_plus) {
+            if !same(toks[2], &e2) && !(c.plus && same(toks[2], &e2_plus)) {
                 v.push(viol(
                     "FMT_PREC",
                     format!("second numeral {:?} != f64 rendering {:?} at precision {}", clip(toks[2]), clip(&e2), p),
@@ -290,6 +348,20 @@ pub fn clip(s: &str) -> String {
 }
 
 pub fn execute(c: &FmtCase) -> LegReport {
+    // the `+` flag is part of the preset when further flags are in use: keep the two consistent
+    // whatever a shrink step or a hand-edited replay file says
+    let fixed;
+    let c = match c.flags {
+        Some(fl) if fl.preset < crate::fmtspecs::N_PRESETS && c.plus != crate::fmtspecs::PRESET_HAS_PLUS[fl.preset] => {
+            fixed = FmtCase { plus: crate::fmtspecs::PRESET_HAS_PLUS[fl.preset], ..c.clone() };
+            &fixed
+        }
+        Some(fl) if fl.preset >= crate::fmtspecs::N_PRESETS => {
+            fixed = FmtCase { flags: None, ..c.clone() };
+            &fixed
+        }
+        _ => c,
+    };
     let mut rep = LegReport::default();
     if !ref_valid_bits(c.hi, c.lo) {
         rep.violations.push(viol("HARNESS", "fmt case with a value that is not reference-valid"));
@@ -297,6 +369,9 @@ pub fn execute(c: &FmtCase) -> LegReport {
     }
     let x = raw_twofloat(c.hi, c.lo);
     rep.probes.hit(branch_probe(c.tr, c.plus, c.prec));
+    if let Some(fl) = c.flags {
+        rep.probes.hit(crate::fmtspecs::PRESET_NAMES[fl.preset]);
+    }
     if c.lo == SIGN {
         rep.probes.hit("fmt_lo_negative_zero");
     }
@@ -403,7 +478,7 @@ pub fn execute(c: &FmtCase) -> LegReport {
     if c.sink.is_faulty() {
         rep.faulted = true;
         let mut sink = SimSink::new(&c.sink);
-        let r = guarded(|| render_tf(&mut sink, &x, c.tr, c.plus, c.prec));
+        let r = guarded(|| render_case(&mut sink, &x, c));
         rep.steps += sink.calls as u64;
         rep.log.u64(sink.log.finish());
         rep.sig.u64(sink.sig.finish());
@@ -498,11 +573,21 @@ pub fn generate(r: &mut Rng, hi: u64, lo: u64) -> FmtCase {
         (_, Some(f)) if (1..=40).contains(&f) && r.chance(1, 8) => Some((f - 1) as usize),
         _ => prec,
     };
-    let mut c = FmtCase { hi, lo, tr, plus, prec, sink: SinkPlan::default(), io: None };
+    let flags = if r.chance(1, 5) {
+        let preset = r.usize_below(crate::fmtspecs::N_PRESETS);
+        Some(FlagSpec { preset, width: *r.pick(&[0usize, 1, 8, 12, 24, 40, 80]) })
+    } else {
+        None
+    };
+    let plus = match flags {
+        Some(fl) => crate::fmtspecs::PRESET_HAS_PLUS[fl.preset],
+        None => plus,
+    };
+    let mut c = FmtCase { hi, lo, tr, plus, prec, sink: SinkPlan::default(), io: None, flags };
     if r.chance(35, 100) {
         return c; // fault-free configuration
     }
-    if r.chance(1, 4) {
+    if c.flags.is_none() && r.chance(1, 4) {
         // format into an io::Write with its own fault plan
         let x = raw_twofloat(hi, lo);
         let ideal = WriterPlan::default();
@@ -635,6 +720,12 @@ pub fn shrink(c: &FmtCase) -> Vec<FmtCase> {
         push(&|d| d.sink.capacity = Some(k.saturating_sub(1)));
     }
     // simplify the spec
+    push(&|d| d.flags = None);
+    push(&|d| {
+        if let Some(f) = d.flags.as_mut() {
+            f.width = 0
+        }
+    });
     push(&|d| d.prec = None);
     if let Some(p) = c.prec {
         push(&|d| d.prec = Some(0));
